@@ -306,6 +306,23 @@ def regex_shapes():
     return out
 
 
+def assertion_groups():
+    """groups whose only content is an assertion, with and without a quantifier, in regexes that go down the raw
+    matcher path (class-only bodies, anchors) and the literal path, plain / wide / ascii wide / nocase wide"""
+    R = 'rule a { strings: $a = %s condition: $a }'
+    groups = ["(\\b)", "(\\B)", "(^)", "($)", "(\\b)?", "(\\B)?", "(\\b)*", "(\\B)+", "(\\b){2}", "((\\b))",
+              "(\\b|\\B)", "(\\b\\B)", "(\\b)(\\B)?", "(^)?", "($)*"]
+    shapes = ["/%s[a-z]+/", "/^[a-z]+%s[0-9]/", "/^%s\\w+/", "/[a-z]+%s/", "/\\w+%s\\d+$/", "/%sabcd.z/", "/ab%scd/",
+              "/[a-z]%s[a-z]%s[0-9]/"]
+    mods = ["", " wide", " ascii wide", " nocase wide", " wide fullword"]
+    out = []
+    for g in groups:
+        for sh in shapes:
+            for m in mods:
+                out.append(("rx_assert_group", R % ((sh % ((g,) * sh.count("%s"))) + m)))
+    return out
+
+
 def time_families():
     """compile time must stay modest: repeated groups with empty branches, nested optional groups, ..."""
     R = 'rule a { strings: $a = /%s/ condition: $a }'
@@ -589,8 +606,23 @@ class C08(Prop):
         # string sections: runs of classes / masks / negations in and around alternation branches
         for nm, t in string_runs():
             out.append(self.mk("strrun:" + nm, t, {}))
-        for nm, t in regex_shapes():
+        for nm, t in regex_shapes() + assertion_groups():
             out.append(self.mk("strshape:" + nm, t, {}))
+        # long flat chains of every folded operator: beyond max_condition_depth they must be refused ("condition
+        # is too complex"), never accepted and never a crash; and / or chains are n-ary and must be accepted
+        for op in ("+", "-", "*", "\\", "%", "&", "|", "^", "<<", ">>"):
+            for m in (39, 41, 100, 1000, 3000):
+                c = self.mk("opchain:" + op, "rule a { condition: %s > 0 }" % (" %s " % op).join(["1"] * m), {})
+                c["expect"] = "err" if m >= 41 else None
+                out.append(c)
+        for op in ("and", "or"):
+            for m in (100, 3000, 30000):
+                out.append(self.mk("opchain:" + op, "rule a { condition: %s }" % (" %s " % op).join(["true"] * m), {}, "ok"))
+        for m in (100, 3000):
+            out.append(self.mk("opchain:mixed", "rule a { condition: %s > 0 }" % " ".join(
+                ["1"] + ["%s 1" % ["+", "|", "*", "-", "^"][i % 5] for i in range(m)]), {}))
+            out[-1]["expect"] = "err" if m >= 3000 else None     # precedence makes the 100-operand tree shallow
+            out.append(self.mk("opchain:contains", 'rule a { condition: %s }' % " and ".join(['"ab" contains "b"'] * m), {}, "ok"))
         # compile time families (wall-clock cap; the time measured in the child must stay below 15 s)
         for nm, t in time_families():
             out.append(self.mk("time:" + nm, t, {}))
@@ -710,14 +742,18 @@ class C08(Prop):
         redo = [i for i, o in enumerate(outs) if isinstance(o, dict) and "crash" in o
                 and "overflowed its stack" in o.get("stderr", "") and self.op_chain(cases[i]) >= 1000]
         if redo:
-            h2 = []
+            h2, h3 = [], []
             for i in redo:
                 h = dict(hc[i])
                 h["parse_only"] = True
+                h3.append(dict(h))              # parser only, result dropped: must die the same way
                 h["forget_ast"] = True
-                h2.append(h)
-            for i, o2 in zip(redo, core.harness_run(ctx.bind_checked, "c08", h2, shards=12)):
-                if isinstance(o2, dict) and o2.get("parse") == "ok":
+                h2.append(h)                    # parser only, result leaked: must return
+            r2 = core.harness_run(ctx.bind_checked, "c08", h2, shards=12)
+            r3 = core.harness_run(ctx.bind_checked, "c08", h3, shards=12)
+            for i, o2, o3 in zip(redo, r2, r3):
+                if isinstance(o2, dict) and o2.get("parse") == "ok" and isinstance(o3, dict) \
+                        and "overflowed its stack" in o3.get("stderr", ""):
                     outs[i]["kf"] = 1
         for c, o in zip(cases, outs):
             if isinstance(o, dict) and "compile" in o:
@@ -762,7 +798,7 @@ class C08(Prop):
         if case.get("expect") == "ok" and o["compile"] != "ok":
             return "text valid by construction rejected: " + o["compile"]
         if case.get("expect") == "err" and o["compile"] == "ok":
-            return "nesting at 10x the limit accepted"
+            return "a text that must be refused (depth or chain beyond the limit) was accepted"
         if case.get("parse_expect") == "too_deep" and not o["parse"].startswith("err:"):
             # (the refusal is usually "too many imbricated ...", but where the parser tries an alternative after
             # a failed branch it can surface as a plain syntax error: refused is what matters)
